@@ -1,5 +1,21 @@
+// --- the eligibility function of the working tree, compiled in by path inclusion (C08) -----------
+// The file expects the two cfg macros and the two type aliases of mithril-stm at its crate root.
+macro_rules! cfg_num_integer {
+    ($($item:item)*) => { $( $item )* };
+}
+macro_rules! cfg_rug {
+    ($($item:item)*) => {};
+}
+pub type PhiFValue = f64;
+pub type Stake = u64;
+#[path = "/repo/mithril-stm/src/proof_system/concatenation/eligibility.rs"]
+#[allow(dead_code, unused_imports)]
+mod eligibility;
+// -------------------------------------------------------------------------------------------------
 mod c01;
 mod c02;
+mod c06;
+mod c08;
 mod g1;
 mod legacy;
 mod refagg;
@@ -36,6 +52,34 @@ fn main() {
                 "worlds = random registrations (1-8 parties, 5 stake profiles) x params (m<=31,k<=10,phi in {.2,.5,.8,.95,1}); base sets = whole honest signature set and a random subset, all permutations when |S|<=5; extra material = exact duplicates (1-3 copies, whole set twice), same-sigma copies with restricted / reordered index lists, same sigma under another or an unregistered slot, corrupted sigma (on-curve), foreign sigma, unwon-index superset, signatures on 1-3 other messages, signatures of another registration; placed after / before / interleaved / permuted (all permutations when |S|<=5). Non-trivial = multiset with extra material; distinct = distinct ordered multiset of (tag, signature).",
                 &["validity of a single signature = public SingleSignature::verify under the key registered at the slot the signature names, honest ones cross-checked with blst directly", "BLS unforgeability not attacked"],
                 50,
+            );
+        }
+        "C06" => {
+            let (shards, per) = match args.tier {
+                Tier::Quick => (16, 6),
+                Tier::Thorough => (64, 40),
+            };
+            vcore::run_shards(&mut mon, shards, threads, |s, m| c06::run_stm_level(s, m, per));
+            c06::run_common_level(&mut mon);
+            mon.finish(
+                "registration sets: 2-40 parties drawn from a key pool preferring keys that share leading bytes, stake profiles with many ties; all n! registration orders for n<=6, random orders above; paths: mithril-stm KeyRegistration+Clerk, mithril-common SignerBuilder over KES-certified fixture signers, the same after SignerWithStake -> message part -> JSON text -> back, key through json-hex / bytes-hex / TryFrom<&str>; observations (key bytes, total stake, slot of every party) must be equal for one set; neighbouring sets (stake +-1, party added/removed, key replaced, stakes swapped, unit of stake moved) must give a different key. Non-trivial = a permuted order or a neighbour set; distinct = distinct (set, order) / (set, neighbour).",
+                &["hash collision resistance of Blake2b", "the client's compute_mithril_stake_distribution_message path is exercised by the C11/C06 part of mon-client"],
+                50,
+            );
+        }
+        "C08" => {
+            let log = std::env::temp_dir().join(format!("verif-c08-{}-{}.jsonl", std::process::id(), args.seed));
+            match c08::run(&mut mon, &log) {
+                Ok(n) => mon.count_n("decisions_logged", n),
+                Err(e) => mon.inconclusive(&format!("cannot write the decision log: {e}")),
+            }
+            c08::signer_verifier_agreement(&mut mon);
+            c08::judge_with_python(&mut mon, &log);
+            let _ = std::fs::remove_file(&log);
+            mon.finish(
+                "decisions of the real is_lottery_won (eligibility.rs of the working tree, path-included) over phi in {production 0.2, test-suite values, 2^-52..1-2^-53, 1, random} x (stake,total) in {0,1,half,total-1,total,random} x totals up to 2^64-1 x draws {uniform, threshold*(1 +- 2^-j) for j in 8..39, fractions just below the threshold, all-zero, all-ones}; every decision is logged and judged offline by checkers/lottery_exact.py (mpmath, 600 bit): outside the 2^-40 band decision == (p < 1-(1-phi)^(stake/total)). Plus determinism, monotonicity chains (stake up / draw down), stake 0, phi 1, and signer/verifier agreement per index through the public API. Non-trivial = every logged decision (distinct inputs).",
+                &["mpmath as exact reference", "band |p - threshold| <= 2^-40 skipped (absorbs the f64 rounding of ln(1-phi) inside the implementation)", "rug backend not compiled in this workspace, not judged"],
+                1000,
             );
         }
         other => {
